@@ -149,9 +149,14 @@ class Check:
         self.bounds = []
         self.outside = []
         self._nontrivial = set()
+        self.phases = []          # (what, seconds): where the wall time of this run went
+
+    def _phase(self, what, t0):
+        self.phases.append([what, round(time.time() - t0, 1)])
 
     # -- loading
     def load(self):
+        t_load = time.time()
         probs, n_ext = oracle_selfcheck.run(verbose=False)
         if probs:
             print('ORACLE-FAULT: ' + '; '.join(probs))
@@ -165,15 +170,24 @@ class Check:
             self.finish_exit(EXIT_INCONCLUSIVE)
         self.cov['mir'] = {'lines': self.mir_text.count('\n'), 'source_digest': self.ov.source_digest(),
                            'repo': self.ov.repo}
+        self._phase('overlay + MIR dump', t_load)
         return self.mir_text
 
     def native(self, release=False):
-        return OV.Native(self.ov.native(self.features, release))
+        t = time.time()
+        path = self.ov.native(self.features, release)
+        if time.time() - t > 1:
+            self._phase('native replay build', t)
+        return OV.Native(path)
 
     def jobs(self, fn, jobs, extra=None, procs=None):
+        t = time.time()
         res = run_jobs(fn, jobs, self.mir_text, self.ov.dir, extra, procs)
         for r in res:
             self.absorb(r)
+        slow = sorted(((r.get('wall_s', 0), str(r.get('job'))[:60]) for r in res), reverse=True)[:3]
+        self._phase('%s x %d (slowest: %s)' % (getattr(fn, '__name__', 'jobs'), len(jobs),
+                                               ', '.join('%s %.0fs' % (j, w) for w, j in slow)), t)
         return res
 
     def absorb(self, r):
@@ -217,7 +231,9 @@ class Check:
         symbolic=description of the harness's free variables)"""
         from engine import kani as K
         names = [sp['harness'] for sp in specs]
+        t_k = time.time()
         results, wall, built, err = K.run(self.ov, names, features=self.features or 'svg', jobs=jobs, timeout=timeout)
+        self._phase('kani x %d' % len(names), t_k)
         self.cov.setdefault('kani', {'harnesses': [], 'wall_s': 0.0, 'version': 'Kani 0.68.0 / CBMC 6.11.0 (CaDiCaL)'})
         self.cov['kani']['wall_s'] += round(wall, 1)
         if not built:
@@ -314,6 +330,7 @@ class Check:
             code = EXIT_INCONCLUSIVE
         if self.violations:
             code = EXIT_VIOLATION
+        self.cov['wall_phases'] = self.phases
         ev = {
             'property_id': self.pid, 'tier': self.tier, 'seed': self.seed, 'level': level,
             'coverage': self.cov, 'assumptions': self.assumptions,
